@@ -46,7 +46,10 @@ pub async fn on_document_selection_range_handle(
 
         for ancestor in token.parent_ancestors() {
             let range = ancestor.text_range();
-            ranges.push(range);
+            // a node that spans the same text as the previous entry is no step outward
+            if ranges.last() != Some(&range) {
+                ranges.push(range);
+            }
         }
 
         let mut parent: Option<Box<SelectionRange>> = None;
